@@ -129,7 +129,7 @@ def main(tier, seed):
     ck.assumptions += ['CMPH/BDZ yields a minimal perfect hash for the key set: NOT proved; it is the hypothesis of '
                        'C14_complete and is checked on every generated key set (injective, below n)',
                        'strcmp/strlen/bsearch per ISO C', 'directory entries of other namespaces (non-local) not modelled']
-    ck.prove(['gen_c14.py'], models=['Model/C14Spec.vo'])
+    ck.prove(['gen_c14.py'], models=['Model/C14Spec.vo', 'Model/C14RSpec.vo'])
     ok, out = c_build()
     exe_h = exe_f = None
     if ok:
@@ -143,7 +143,7 @@ def main(tier, seed):
     sizes = [1, 2, 3, 5, 17, 100, 255, 256, 257, 1000] if tier == 'quick' else \
         [1, 2, 3, 4, 5, 8, 17, 64, 100, 255, 256, 257, 1000, 4097, 10000, 20000]
     big = [33000] if tier == 'quick' else [30000, 40000, 65535]
-    tcases, sizecases = [], []
+    tcases, sizecases, hcases = [], [], []
     tmp = tempfile.mkdtemp(prefix='giv14')
     try:
         # ---- gthash level: hypothesis check + size arithmetic
@@ -235,6 +235,8 @@ def main(tier, seed):
             ck.count_case(dict(entries=n, probes=len(probes), sample=d1[:3]), kind='typelib:%d' % n)
             if n <= 1000:
                 tcases.append((dirs, probes, r1, r2))
+                if not e3 and len(r3) == len(probes):
+                    hcases.append((dirs, [a for (k, a) in probes if k == 'G'], [z for (k, a), z in zip(probes, r3) if k == 'G']))
     finally:
         shutil.rmtree(tmp, ignore_errors=True)
 
@@ -270,6 +272,31 @@ def main(tier, seed):
             if sb:
                 ck.tie_broken('correspondence', 'gthash.c size arithmetic differs from the model for n in %r' % sb)
         ck.extra['traces_validated_against_impl'] = sum(len(t[1]) for t in tcases)
+        # histories: every GType probe asked of the empty repository, the typelib registered lazily, the probes asked again --
+        # against Model.C14R.rrun (the repository with its two memo tables)
+        hitems = []
+        for i, (dirs, gs, obs) in enumerate(hcases):
+            ds = clist(['mk %s %s %s' % (cstr(e[0]), copt(e[1], cstr), copt(e[2], cstr)) for e in dirs])
+            hitems.append('{| h_id := %d; h_dirs := %s; h_gtypes := %s; h_obs := %s |}'
+                          % (i, ds, clist([cstr(g) for g in gs]), clist([copt(o, cstr) for o in obs])))
+        hbad = []
+        for s in range(len(hitems)):
+            text = '\n'.join([
+                'From Coq Require Import List NArith ZArith Bool.',
+                'From GIV.Lib Require Import Regex Str.', 'From GIV.Model Require Import C14 C14Spec C14R C14RSpec.',
+                'Import ListNotations.', 'Local Open Scope N_scope.',
+                'Definition cases : list hcase := [%s].' % hitems[s],
+                'Definition hbad := Eval vm_compute in map h_id (filter h_bad cases).', 'Print hbad.'])
+            rc, out = coq_eval('C14_hist_%d' % s, text)
+            if rc != 0:
+                ck.tie_broken('correspondence', 'history case file does not evaluate:\n' + out[-2000:])
+                break
+            hbad += parse_nlist(parse_defs(out)['hbad'])
+        ck.extra['histories_validated_against_impl'] = len(hcases)
+        if hbad:
+            dirs, gs, obs = hcases[hbad[0]]
+            ck.tie_broken('correspondence', 'find-by-gtype after a lazy registration differs from Model.C14R on %d typelibs' % len(hbad),
+                          dict(entries=[e[0] for e in dirs][:30], gtypes=gs[:10], observed=obs[:10]))
         if bad:
             dirs, probes, r1, r2 = tcases[bad[0]]
             ck.tie_broken('correspondence', 'lookups differ from Model.C14 on %d typelibs' % len(bad),
